@@ -40,6 +40,13 @@ func gen(t *rapid.T) Case {
 		pos := rapid.IntRange(0, len(c.Archive.Entries)).Draw(t, "lmpos")
 		c.Archive.Entries = append(c.Archive.Entries[:pos], append([]tarmodel.Entry{e}, c.Archive.Entries[pos:]...)...)
 	}
+	if rapid.IntRange(0, 3).Draw(t, "dangling") == 0 {
+		// hard links whose target (directly or at the end of a chain) is not in the archive: they are entries of the
+		// input like any other; listed, they count as paths that do not exist
+		c.Archive.Entries = append(c.Archive.Entries,
+			tarmodel.Entry{Name: "dangle", Type: "hardlink", Link: "no/such/target", Mode: 0o644, MTime: 1600000000},
+			tarmodel.Entry{Name: "dangle2", Type: "hardlink", Link: "dangle", Mode: 0o644, MTime: 1600000000})
+	}
 	// candidate paths: existing names, their parents (explicit or implicit), hardlink targets, root, missing
 	var cands []string
 	for _, e := range c.Archive.Entries {
@@ -82,6 +89,7 @@ func run(c Case, ev *pbt.Ev) error {
 		byName[e.Clean] = e
 	}
 	// which listed paths exist
+	danglingDirs := map[string]bool{}
 	var missing []string
 	var listed []string // clean names of existing listed paths, first mention order
 	seen := map[string]bool{}
@@ -89,6 +97,32 @@ func run(c Case, ev *pbt.Ev) error {
 		cn := tarmodel.Clean(l)
 		if _, ok := byName[cn]; !ok && cn != "" {
 			missing = append(missing, l)
+			continue
+		}
+		// a hard link whose chain of targets ends outside the archive cannot be placed either
+		dangling := false
+		for e, hops := byName[cn], 0; cn != "" && e.Hdr != nil && e.Hdr.Typeflag == tar.TypeLink && hops < 64; hops++ {
+			t, ok := byName[tarmodel.Clean(e.Hdr.Linkname)]
+			if !ok {
+				dangling = true
+				break
+			}
+			e = t
+		}
+		if dangling {
+			missing = append(missing, l)
+			ev.Class("listed-dangling-hardlink")
+			// (its directories may already have been placed when the missing target is discovered: directories
+			// carry no data, the statement says nothing against them)
+			for d := cn; ; {
+				i := strings.LastIndex(d, "/")
+				if i < 0 {
+					danglingDirs[""] = true
+					break
+				}
+				d = d[:i]
+				danglingDirs[d] = true
+			}
 			continue
 		}
 		if !seen[cn] {
@@ -205,6 +239,9 @@ func run(c Case, ev *pbt.Ev) error {
 	for i, e := range group {
 		pos[e.Clean] = i
 		if _, ok := placed[e.Clean]; !ok {
+			if danglingDirs[e.Clean] && e.Hdr.Typeflag == tar.TypeDir {
+				continue
+			}
 			return pbt.Violf("group-extra", "entry %q is laid out before the landmark but is neither listed nor a parent / link target of a listed path (list %q)", e.Hdr.Name, c.Opts.Prioritized)
 		}
 	}
@@ -243,6 +280,9 @@ func run(c Case, ev *pbt.Ev) error {
 	for _, w := range want {
 		if _, ok := placed[w.Clean]; ok {
 			continue
+		}
+		if _, inGroup := pos[w.Clean]; inGroup && danglingDirs[w.Clean] {
+			continue // a tolerated directory of a dangling listed link, already laid out before the landmark
 		}
 		if ri >= len(rest) || rest[ri].Clean != w.Clean {
 			got := "<none>"
